@@ -79,7 +79,25 @@ class Api:
 
     # ---- helpers ------------------------------------------------------------------------------------------
     def nonnull(self, st, o, what):
-        return self.cx.require(st, o != NULL, "valid-deref:%s" % what)
+        return self.live(self.cx.require(st, o != NULL, "valid-deref:%s" % what), o, what)
+
+    def live(self, st, o, what):
+        """Use of an object obtained as a NEW reference (result of Python code) is valid only while this function still
+        holds a reference of its own to it, or the object is one of the function's arguments (kept alive by the caller):
+        nothing else is known to keep such an object alive.  (Entries borrowed from containers are not tracked here.)"""
+        fresh = st.ghost.get("fresh", ())
+        if st.own is None or not fresh:
+            return st
+        own0 = z3.Const("own0", st.own.sort())
+        kept = st.ghost.get("caller_kept", ())      # the function's own arguments: kept alive by the caller
+        # only uses through the very pointer that received the new reference: an equal pointer read from a field or a
+        # container is kept alive by that owner, which this ledger does not see
+        held = st.ghost.get("kept_by_field", ())     # handed to an owning struct field, which keeps it alive (A-CB)
+        used = [f for f in fresh if z3.is_expr(o) and o.eq(f) and not any(f.eq(h) for h in held)]
+        if not used:
+            return st
+        cond = z3.And(*[z3.Or(st.own[f] > own0[f], *[f == p for p in kept]) for f in used])
+        return self.cx.require(st, cond, "valid-deref:live-reference:%s" % what)
 
     def own_inc(self, st, o, d=1):
         if st.own is None:
@@ -89,6 +107,7 @@ class Api:
     def fresh_obj(self, prefix, st):
         """a new reference to some non-NULL object (possibly an existing one: results of Python code may alias)"""
         r = self.cx.fresh(prefix, Obj)
+        st = st.gset("fresh", st.ghost.get("fresh", ()) + (r,))
         return r, self.own_inc(st.assume(r != NULL), r)
 
     def havoc(self, st, why):
